@@ -5,13 +5,13 @@ from .common import *
 from .c01 import sc
 from vlib import ex as X
 
-EXPLANATION = ("C20: exp2 on 8-bit (thorough: 16-bit, sliced) scaled_integer inputs is executed symbolically and compared "
+EXPLANATION = ("C20: exp2 on 8-bit (32-bit in 256-input slices; thorough: 16-bit slices too) scaled_integer inputs is executed symbolically and compared "
                "with a table T[x] = floor(2^(x*2^E) * 2^-E) computed per run in 240-bit integer arithmetic (embedded as "
                "an ite ladder): |rep - T[x]| <= 1 for every representable result and rep == T[x] for integral x.  The "
                "<numbers> constants are ground obligations (no free variable): the IR constant c must satisfy "
                "|c*2^E - true| < 2^E against a 100-digit value.")
-BOUNDS = {"quick": "exp2: Rep in {i8,u8}, every exponent leaving >= 1 integer bit; constants: 13 constants x Rep in {i8..u64} x 4-5 exponents each (decided by evaluation, flagged as ground)",
-          "thorough": "exp2 adds {i16,u16} sliced on the high byte; 32-bit reps are outside the bound (no solver-expressible oracle for 2^x at that size)"}
+BOUNDS = {"quick": "exp2: Rep in {i8,u8}, every exponent leaving >= 1 integer bit, every input; Rep in {i32,u32}: 3 slices of 256 consecutive inputs per exponent in {-30,-24,-16,-8,-1,0}/{-31,-16,-4,0} (top and bottom of the representable range + seeded); constants: 13 constants x Rep in {i8..u64} x 4-5 exponents each (decided by evaluation, flagged as ground)",
+          "thorough": "exp2 adds {i16,u16} sliced on the high byte (24 slices per exponent) and 24 slices per exponent for {i32,u32}; 32-bit inputs outside the sampled slices are outside the bound"}
 
 S_BITS = 240
 ONE = 1 << S_BITS
